@@ -262,7 +262,7 @@ def run_pair(ctx, comp, cases, binname=None):
     return [(impl[a:b], model[a:b]) for a, b in bounds]
 
 
-def corr_component(ctx, comp, cases, nontrivial=None, sample_n=3, label=None, oracle=None):
+def corr_component(ctx, comp, cases, nontrivial=None, sample_n=3, label=None, oracle=None, shrink=True):
     """Lock-step run of `cases` on implementation and model.  Returns list of dicts for cases where
     something is wrong: kind = 'oracle' (implementation fails the property's own oracle) or
     'disagree' (model and implementation differ)."""
@@ -290,10 +290,11 @@ def corr_component(ctx, comp, cases, nontrivial=None, sample_n=3, label=None, or
         if orc:
             stat["oracle_failures"] += 1
             bad.append({"kind": "oracle", "component": comp, "ops": case, "impl": impl, "model": model, "at": orc[0],
-                        "detail": detail, "oracle": oracle})
+                        "detail": detail, "oracle": oracle, "shrinkable": shrink})
         elif dif:
             stat["disagreements"] += 1
-            bad.append({"kind": "disagree", "component": comp, "ops": case, "impl": impl, "model": model, "at": dif[0]})
+            bad.append({"kind": "disagree", "component": comp, "ops": case, "impl": impl, "model": model, "at": dif[0],
+                        "shrinkable": shrink})
         key = (comp, tuple(case))
         if key not in ctx._distinct:
             nt = nontrivial(case, impl) if nontrivial else any(
@@ -312,6 +313,10 @@ def shrink_case(ctx, comp, bad):
     """delta-debug the op list of a failing case (keeps the first line: it usually creates the state)."""
     ops = list(bad["ops"])
     kind = bad["kind"]
+    if not bad.get("shrinkable", True):
+        out = dict(bad)
+        out.pop("oracle", None)
+        return out
 
     orc = bad.get("oracle")
 
